@@ -149,7 +149,8 @@ pub fn program(ch: &mut Choices, o: &WildOpts) -> (Vec<Line>, WildInfo) {
                 _ => match ch.weighted(&[5, 2, 2]) {
                     // an ecall that does not exit
                     0 => {
-                        body.push(ins("li", vec![r(A7), i(*ch.pick(&[1i64, 11, 5, 34]))]));
+                        let n = if ch.chance(1, 2) { *ch.pick(&[1i64, 11, 5, 34]) } else { *ch.pick(&crate::machine::NON_EXIT_ECALLS) };
+                        body.push(ins("li", vec![r(A7), i(n)]));
                         body.push(ins("ecall", vec![]));
                     }
                     // a bare ecall: its number is whatever the paths reaching it left in a7
